@@ -90,6 +90,120 @@ Definition identity_v0 (x : input) : bool :=
   && recipient_ok (conv x) addrs (recip x).
 
 (* ---------------------------------------------------------------------------------------------
+   The whole message as the acceptance path reads it: the <Conditions> element with everything it
+   may carry besides the audience restrictions (or no <Conditions> at all), and the LIST of
+   <SubjectConfirmation> elements of the Subject (any number, any method, with or without data).
+   [input] above is the usual special case: time-bounded Conditions, one bearer confirmation. *)
+
+(* <Conditions>: which optional attributes / other children are there, and the restrictions *)
+Record conditions := {
+  k_nb : bool;                       (* NotBefore attribute present (and satisfied) *)
+  k_nooa : bool;                     (* NotOnOrAfter attribute present (and satisfied) *)
+  k_other : bool;                    (* OneTimeUse / ProxyRestriction children present *)
+  k_rs : list (list audience)        (* AudienceRestriction / Audience structure *)
+}.
+
+Definition is_nil {A} (l : list A) : bool := match l with [] => true | _ => false end.
+
+(* Conditions.keyswv() is empty: no attribute and no child has a value *)
+Definition keyswv_empty (k : conditions) : bool :=
+  negb (k_nb k || k_nooa k || k_other k) && is_nil (k_rs k).
+
+(* AuthnResponse.condition_ok (validity period satisfied, not in test mode, no xsi:type'd extra
+   condition): no Conditions, or Conditions without any content -> True; otherwise the verdict of
+   for_me — whether or not a validity period is given *)
+Definition condition_ok (c : option conditions) (me : string) : bool :=
+  match c with
+  | None => true
+  | Some k => if keyswv_empty k then true else for_me (k_rs k) me
+  end.
+
+Definition condition_ok_v0 (c : option conditions) (me : string) : bool :=
+  match c with
+  | None => true
+  | Some k => if keyswv_empty k then true else for_me_v0 (k_rs k) me
+  end.
+
+Inductive method := Bearer | HolderOfKey | SenderVouches | OtherMethod.
+
+(* <SubjectConfirmationData>: its Recipient, and whether the data confirms the subject for the
+   method on its own (_bearer_confirmed / _holder_of_key_confirmed would return True: a bearer
+   datum with a NotBefore but no NotOnOrAfter does not, nor holder-of-key data without KeyInfo) *)
+Record cdata := { d_recipient : option string; d_confirmed : bool }.
+Record confirmation := { c_method : method; c_data : option cdata }.
+
+(* what the loop of get_subject does with one SubjectConfirmation *)
+Inductive verdict := Skip | Keep | Raise.
+
+Definition check_recipient (conv : option (option string)) (addrs : list string) (d : cdata) : verdict :=
+  if recipient_ok conv addrs (d_recipient d) then Keep else Raise.
+
+Definition conf_verdict (conv : option (option string)) (addrs : list string) (c : confirmation) : verdict :=
+  match c_method c, c_data c with
+  | Bearer, None => Skip                                   (* _bearer_confirmed(None) is False *)
+  | Bearer, Some d => if d_confirmed d then check_recipient conv addrs d else Skip
+  | HolderOfKey, None => Skip
+  | HolderOfKey, Some d => if d_confirmed d then check_recipient conv addrs d else Skip
+  | SenderVouches, None => Raise                           (* None.recipient: AttributeError *)
+  | SenderVouches, Some d => check_recipient conv addrs d
+  | OtherMethod, _ => Raise                                (* ValueError: unknown method *)
+  end.
+
+Definition is_raise (v : verdict) : bool := match v with Raise => true | _ => false end.
+Definition is_keep (v : verdict) : bool := match v with Keep => true | _ => false end.
+
+(* get_subject as the loop runs: the first Raise ends it; the kept confirmations are collected *)
+Fixpoint subject_loop (conv : option (option string)) (addrs : list string) (l : list confirmation)
+                      (kept : list confirmation) : option (list confirmation) :=
+  match l with
+  | [] => Some kept
+  | c :: r => match conf_verdict conv addrs c with
+              | Raise => None
+              | Skip => subject_loop conv addrs r kept
+              | Keep => subject_loop conv addrs r (kept ++ [c])
+              end
+  end.
+
+(* get_subject returns (no exception): nothing raised and at least one confirmation was kept *)
+Definition get_subject (conv : option (option string)) (addrs : list string) (l : list confirmation) : bool :=
+  match subject_loop conv addrs l [] with
+  | Some (_ :: _) => true
+  | _ => false
+  end.
+
+Record message := {
+  m_me : string;
+  m_specs : list epspec;
+  m_binding : string;
+  m_conds : option conditions;       (* None: the assertion has no <Conditions> *)
+  m_dest : option string;
+  m_conv : option (option string);
+  m_confs : list confirmation        (* the SubjectConfirmation elements, in document order *)
+}.
+
+Definition accept (x : message) : bool :=
+  let addrs := endpoint (m_specs x) (m_binding x) in
+  dest_ok (m_binding x) (m_dest x) addrs
+  && condition_ok (m_conds x) (m_me x)
+  && get_subject (m_conv x) addrs (m_confs x).
+
+Definition accept_v0 (x : message) : bool :=
+  let addrs := endpoint (m_specs x) (m_binding x) in
+  dest_ok (m_binding x) (m_dest x) addrs
+  && condition_ok_v0 (m_conds x) (m_me x)
+  && get_subject (m_conv x) addrs (m_confs x).
+
+(* the usual message: Conditions with a validity period, ONE bearer confirmation with data *)
+Definition usual_conditions (rs : list (list audience)) : conditions :=
+  {| k_nb := true; k_nooa := true; k_other := false; k_rs := rs |}.
+Definition bearer (r : option string) : confirmation :=
+  {| c_method := Bearer; c_data := Some {| d_recipient := r; d_confirmed := true |} |}.
+Definition of_input (x : input) : message :=
+  {| m_me := me x; m_specs := specs x; m_binding := binding x;
+     m_conds := Some (usual_conditions (rs x)); m_dest := dest x; m_conv := conv x;
+     m_confs := [bearer (recip x)] |}.
+
+(* ---------------------------------------------------------------------------------------------
    Sequences of calls on long-lived provider objects (several objects, possibly with different
    configurations, living in one process).
 
@@ -114,9 +228,9 @@ Definition request_acs_url (specs : list epspec) (binding : string) : option str
   match return_addrs specs binding with [] => None | u :: _ => Some u end.
 
 (* one call on one provider object; the object's configuration travels with the call
-   (me/specs of an [input]; the configured endpoint list of the service asked for otherwise) *)
+   (m_me/m_specs of a [message]; the configured endpoint list of the service asked for otherwise) *)
 Inductive op :=
-| OParse (x : input)                                  (* parse_authn_request_response *)
+| OParse (x : message)                                (* parse_authn_request_response *)
 | OUrls (specs : list epspec) (binding : string)      (* Base.service_urls(binding) *)
 | OEndp (specs : list epspec) (binding : string)      (* Config.endpoint(service, binding, "sp"); specs = list configured for that service *)
 | OAcs (specs : list epspec) (binding : string).      (* create_authn_request(.., binding=binding): the ACS URL put into the request *)
@@ -129,7 +243,7 @@ Inductive out :=
 
 Definition step (o : op) : out :=
   match o with
-  | OParse x => RId (identity x)
+  | OParse x => RId (accept x)
   | OUrls specs b => RUrls (service_urls specs b)
   | OEndp specs b => REndp (endpoint specs b)
   | OAcs specs b => RAcs (request_acs_url specs b)
